@@ -209,6 +209,10 @@ func (c *TreeCacheClientImpl) ReadRunningPath(ctx context.Context, path PathSlic
 		Store:         cachepb.Store_CONFIG,
 		PriorityCount: 1,
 	}, [][]string{path})
+	if len(updates) == 0 {
+		// the index is a snapshot, the value might have been removed from running in the meantime
+		return nil, nil
+	}
 
 	return updates[0], nil
 }
